@@ -760,11 +760,217 @@ theorem acc_shift (N n0 B B' D : Nat) (h1 : N * B' = n0 * B) (h2 : B ≤ B')
     (h : 2 * absdiff (n0 * B) D ≤ B) : 2 * absdiff (N * B') D ≤ B' := by
   rw [h1]; omega
 
+/-- as `wfE`, with one more decimal decade at the bottom: the last digit emitted has place value
+`10^-323` or more. In the extra decade (`10^(d-323) ≤ |x| < 10^(d-322)`) the text is still stable
+and reads back to the double nearest to it, but it need not be within half a unit of `x` (K2). -/
+def wfB (m : Nat) (e : Int) (d : Nat) : Prop :=
+  m ≠ 0 ∧ m < 2 ^ 53 ∧ -1074 ≤ e ∧ e ≤ 971 ∧ 10 ^ d * 2 ^ 1074 ≤ units (-1074) m e * 10 ^ 323
+
+theorem wfB_of_wfE (m : Nat) (e : Int) (d : Nat) (h : wfE m e d) : wfB m e d := by
+  obtain ⟨h1, h2, h3, h4, h5⟩ := h
+  refine ⟨h1, h2, h3, h4, ?_⟩
+  have : (10 : Nat) ^ 323 = 10 ^ 322 * 10 := by rw [← Nat.pow_succ]
+  rw [this, ← Nat.mul_assoc]
+  exact Nat.le_trans h5 (Nat.le_mul_of_pos_right _ (by decide))
+
+/-- the decimal exponent of a double admitted by `wfB` lies between `d - 323` and 308 -/
+theorem kboundsB (m : Nat) (e : Int) (d : Nat) (h : wfB m e d) (hd : d ≤ 12) :
+    (d : Int) - 323 ≤ floorLog10 m e ∧ floorLog10 m e ≤ 308 := by
+  obtain ⟨hm0, h2, h3, h4, h5⟩ := h
+  refine ⟨?_, klog_le_308 m e hm0 h2 h3 h4⟩
+  obtain ⟨s1, s2⟩ := floorLog10_spec m e hm0 h2 h3 h4
+  have eU : (-(-1074 : Int)).toNat = 1074 := by decide
+  apply Classical.byContradiction
+  intro hlt
+  apply s2
+  have hge : GE (2 ^ (-(-1074 : Int)).toNat) (units (-1074) m e) ((d : Int) - 323) := by
+    unfold GE
+    have z1 : ((d : Int) - 323).toNat = 0 := by omega
+    have z2 : (-((d : Int) - 323)).toNat = 323 - d := by omega
+    rw [z1, z2, Nat.pow_zero, Nat.mul_one, eU]
+    have hsplit : (10 : Nat) ^ 323 = 10 ^ (323 - d) * 10 ^ d := by
+      rw [← Nat.pow_add]; congr 1; omega
+    rw [hsplit, ← Nat.mul_assoc, Nat.mul_comm (10 ^ d)] at h5
+    exact Nat.le_of_mul_le_mul_right h5 (ten_pow_pos d)
+  have : (d : Int) - 323 = floorLog10 m e + 1 + (((d : Int) - 323 - floorLog10 m e - 1).toNat : Int) := by omega
+  rw [this] at hge
+  exact GE_mono_le _ _ _ _ hge
+
+theorem pow_factsB : (2 : Nat) ^ 1074 * 10 ^ 89 < 2 ^ 52 * 10 ^ 400 := by decide +kernel
+
+/-! ### below the subnormal threshold of the decimal grid -/
+
+theorem pow_factsS : (2 : Nat) ^ 1074 ≤ 10 ^ 324 ∧ 4 * (2 ^ 1074 * 10 ^ 76) < (10 : Nat) ^ 400 ∧
+    (10 : Nat) ^ 14 < (2 ^ 54 - 1) * 2 ^ 970 := by
+  refine ⟨by decide +kernel, by decide +kernel, by decide +kernel⟩
+
+/-- the decimal exponent of a non-zero double is at least -324 -/
+theorem klog_ge_m324 (m : Nat) (e : Int) (hm0 : m ≠ 0) (h2 : m < 2 ^ 53) (he1 : -1074 ≤ e) (h4 : e ≤ 971) :
+    -324 ≤ floorLog10 m e := by
+  obtain ⟨s1, s2⟩ := floorLog10_spec m e hm0 h2 he1 h4
+  have eU : (-(-1074 : Int)).toNat = 1074 := by decide
+  apply Classical.byContradiction
+  intro hlt
+  apply s2
+  have hge : GE (2 ^ (-(-1074 : Int)).toNat) (units (-1074) m e) (-324) := by
+    unfold GE
+    have z1 : ((-324 : Int)).toNat = 0 := by decide
+    have z2 : (-(-324 : Int)).toNat = 324 := by decide
+    rw [z1, z2, Nat.pow_zero, Nat.mul_one, eU]
+    have a1 : 1 ≤ units (-1074) m e := by
+      show 1 ≤ m * 2 ^ (e - (-1074)).toNat
+      exact Nat.mul_pos (Nat.pos_of_ne_zero hm0) (two_pow_pos _)
+    calc 2 ^ 1074 ≤ 10 ^ 324 := pow_factsS.1
+      _ = 1 * 10 ^ 324 := (Nat.one_mul _).symm
+      _ ≤ units (-1074) m e * 10 ^ 324 := Nat.mul_le_mul_right _ a1
+  have : (-324 : Int) = floorLog10 m e + 1 + ((-324 - floorLog10 m e - 1).toNat : Int) := by omega
+  rw [this] at hge
+  exact GE_mono_le _ _ _ _ hge
+
+/-- **On a decimal grid of `10^-324` or finer the digits printed for a subnormal double denote it.**
+`x = m·2^-1074` non-zero, `k` its decimal exponent, `k − d ≤ −324`: the pair `(N, K)` printed for
+`x` has `d + 1` digits, the double nearest to the decimal `N·10^(K−d)` is `x` itself, and the
+digits are within half a unit of their last place of `x` (one correct rounding). -/
+theorem sub_fine (m : Nat) (d : Nat) (hd : d ≤ 12) (hm0 : m ≠ 0) (hm : m < 2 ^ 52)
+    (hk : floorLog10 m (-1074) - d ≤ -324) :
+    10 ^ d ≤ (sci m (-1074) d).1 ∧ (sci m (-1074) d).1 < 10 ^ (d + 1) ∧
+    -324 ≤ (sci m (-1074) d).2 ∧ (sci m (-1074) d).2 ≤ 320 ∧
+    nd53 (sci m (-1074) d).1 ((d : Int) - (sci m (-1074) d).2) = some (m, -1074) ∧
+    nd53 (roundScaled m (-1074) ((d : Int) - floorLog10 m (-1074))) ((d : Int) - floorLog10 m (-1074)) = some (m, -1074) ∧
+    2 * absdiff ((sci m (-1074) d).1 * (2 ^ (-(-1074 : Int)).toNat * T ((sci m (-1074) d).2 - d)))
+        (units (-1074) m (-1074) * 10 ^ 400) ≤
+      2 ^ (-(-1074 : Int)).toNat * T ((sci m (-1074) d).2 - d) := by
+  have hm53 : m < 2 ^ 53 := by
+    have : (2 : Nat) ^ 52 ≤ 2 ^ 53 := Nat.pow_le_pow_right (by decide) (by decide)
+    omega
+  have hk1 := klog_ge_m324 m (-1074) hm0 hm53 (by decide) (by decide)
+  obtain ⟨s1, s2⟩ := floorLog10_spec m (-1074) hm0 hm53 (by decide) (by decide)
+  generalize hkk : floorLog10 m (-1074) = k at *
+  have hXm : units (-1074) m (-1074) = m := by simp [units]
+  have hn0 := roundScaled_scaled m (-1074) ((d : Int) - k) (by decide) (by omega) (by omega)
+  have eneg : -((d : Int) - k) = k - d := by omega
+  rw [eneg] at hn0
+  have hs1 := (GE_scaled _ _ k (by omega) (by omega)).1 s1
+  have hs2 : ¬ (2 ^ (-(-1074 : Int)).toNat * T (k + 1) ≤ units (-1074) m (-1074) * 10 ^ 400) :=
+    fun hc => s2 ((GE_scaled _ _ (k + 1) (by omega) (by omega)).2 hc)
+  have hTk : T k = T (k - d) * 10 ^ d := by
+    have := T_add (k - d) d (by omega)
+    have e1 : k - (d : Int) + (d : Int) = k := by omega
+    rw [e1] at this; exact this
+  have hTk1 : T (k + 1) = 10 * T k := T_succ k (by omega)
+  have hTkd1 : T (k + 1 - d) = 10 * T (k - d) := by
+    have := T_succ (k - d) (by omega)
+    have e1 : k - (d : Int) + 1 = k + 1 - d := by omega
+    rw [e1] at this; exact this
+  -- the grid is finer than a quarter of a subnormal step
+  have hfine : 4 * (2 ^ (-(-1074 : Int)).toNat * T (k - d)) < 10 ^ 400 := by
+    have eU : (-(-1074 : Int)).toNat = 1074 := by decide
+    rw [eU]
+    have e1 : (-324 : Int) = k - d + ((-324 - (k - (d : Int))).toNat : Int) := by omega
+    have t1 : T (-324) = 10 ^ 76 := by decide +kernel
+    have t2 := T_add (k - d) (-324 - (k - (d : Int))).toNat (by omega)
+    rw [← e1, t1] at t2
+    have a1 : T (k - d) ≤ 10 ^ 76 := by
+      rw [t2]; exact Nat.le_mul_of_pos_right _ (ten_pow_pos _)
+    have a2 : 4 * (2 ^ 1074 * T (k - d)) ≤ 4 * (2 ^ 1074 * 10 ^ 76) :=
+      Nat.mul_le_mul_left _ (Nat.mul_le_mul_left _ a1)
+    exact Nat.lt_of_le_of_lt a2 pow_factsS.2.1
+  have hY0 : ∀ {j : Int}, 0 < 2 ^ (-(-1074 : Int)).toNat * T j := fun {j} => Nat.mul_pos (two_pow_pos _) (T_pos j)
+  generalize hU : 2 ^ (-(-1074 : Int)).toNat = U at *
+  generalize hS : (10 : Nat) ^ 400 = S at *
+  rw [hXm] at hn0 hs1 hs2 ⊢
+  generalize hn0v : roundScaled m (-1074) ((d : Int) - k) = n0 at *
+  have hG : 0 < 10 ^ d := ten_pow_pos d
+  have hG10 : 10 ^ d * 10 = 10 ^ (d + 1) := by rw [Nat.pow_succ]
+  have hGle : 10 ^ d ≤ 10 ^ 12 := Nat.pow_le_pow_right (by decide) hd
+  generalize hGd : 10 ^ d = G at *
+  have hB : 0 < U * T (k - d) := hY0
+  have h1 : G * (U * T (k - d)) ≤ m * S := by
+    have : U * T k = G * (U * T (k - d)) := by rw [hTk]; grind
+    omega
+  have h2 : m * S < 10 * G * (U * T (k - d)) := by
+    have : U * T (k + 1) = 10 * G * (U * T (k - d)) := by rw [hTk1, hTk]; grind
+    omega
+  obtain ⟨f1, f2, f3⟩ := digits_range (m * S) (U * T (k - d)) G hB h1 h2
+  rw [← hn0] at f1 f2 f3
+  have hS0 : 0 < S := by rw [← hS]; exact ten_pow_pos _
+  -- the double nearest to `n0·10^(k−d)` is `x`
+  have hback : nd53 n0 ((d : Int) - k) = some (m, -1074) := by
+    cases hr : nd53 n0 ((d : Int) - k) with
+    | none =>
+      exfalso
+      unfold nd53 nearestDec at hr
+      have hnd : (d : Int) - k ≥ 0 := by omega
+      simp only [hnd, if_true] at hr
+      have hb := nearest_none_bound n0 _ (ten_pow_pos _) hr
+      have : 1 ≤ 10 ^ ((d : Int) - k).toNat := ten_pow_pos _
+      have h3 : (2 ^ 54 - 1) * 2 ^ 970 * 1 ≤ (2 ^ 54 - 1) * 2 ^ 970 * 10 ^ ((d : Int) - k).toNat :=
+        Nat.mul_le_mul_left _ this
+      have := pow_factsS.2.2
+      have : (10 : Nat) ^ 12 * 10 < 10 ^ 14 := by decide
+      omega
+    | some p =>
+      obtain ⟨m', e'⟩ := p
+      obtain ⟨hm', he1', _, hnz⟩ : m' < 2 ^ 53 ∧ -1074 ≤ e' ∧ e' ≤ 971 ∧ (n0 ≠ 0 → 2 ^ 52 ≤ m' ∨ e' = -1074) := by
+        unfold nd53 nearestDec at hr
+        have hnd : (d : Int) - k ≥ 0 := by omega
+        simp only [hnd, if_true] at hr
+        exact Proofs.FloatBin.nearestG_norm 53 (-1074) 971 _ _ m' e' (by decide) (by decide) (by decide)
+          (ten_pow_pos _) hr
+      obtain ⟨_, hopt⟩ := opt_scaled 53 (-1074) 971 n0 ((d : Int) - k) m' e' (by decide) (by decide)
+        (by omega) (by omega) hr
+      have hoptx := hopt m 0 hm53
+      rw [eneg, hU, hS] at hoptx
+      simp only [Nat.pow_zero, Nat.mul_one] at hoptx
+      generalize hYu : units (-1074) m' e' = Y at *
+      have hYX : Y = m := by
+        apply Classical.byContradiction
+        intro hne
+        rcases Nat.lt_or_gt_of_ne hne with hlt | hgt
+        · have := Nat.mul_le_mul_right S (Nat.succ_le_of_lt hlt)
+          rw [Nat.succ_mul] at this
+          unfold absdiff at hoptx f3
+          omega
+        · have := Nat.mul_le_mul_right S (Nat.succ_le_of_lt hgt)
+          rw [Nat.succ_mul] at this
+          unfold absdiff at hoptx f3
+          omega
+      have hn0pos : n0 ≠ 0 := by omega
+      have he' : e' = -1074 := by
+        rcases hnz hn0pos with h | h
+        · exfalso
+          have : m' ≤ Y := by
+            rw [← hYu]
+            show m' ≤ m' * 2 ^ (e' - (-1074)).toNat
+            exact Nat.le_mul_of_pos_right _ (two_pow_pos _)
+          omega
+        · exact h
+      subst he'
+      have : Y = m' := by rw [← hYu]; simp [units]
+      rw [← this, hYX]
+  unfold sci
+  simp only [hkk, hn0v]
+  by_cases hc : n0 = 10 ^ (d + 1)
+  · have hc' : (n0 == 10 ^ (d + 1)) = true := by simpa using hc
+    simp only [hc', if_true]
+    refine ⟨Nat.le_of_eq hGd.symm, by rw [← hG10, hGd]; omega, by omega, by omega, ?_, hback, ?_⟩
+    · have := nearestDec_shift 53 (-1074) 971 (10 ^ d) ((d : Int) - (k + 1))
+      have e1 : (d : Int) - (k + 1) + 1 = d - k := by omega
+      rw [e1, hGd, hG10] at this
+      unfold nd53
+      rw [hGd, ← this, ← hc]; exact hback
+    · apply acc_shift _ n0 (U * T (k - d)) _ _ _ _ f3
+      · rw [hTkd1, hc, hGd, ← hG10]; grind
+      · rw [hTkd1]; exact Nat.mul_le_mul_left U (by omega)
+  · have hc' : (n0 == 10 ^ (d + 1)) = false := by simpa using hc
+    simp only [hc', Bool.false_eq_true, if_false]
+    exact ⟨f1, by rw [← hG10]; omega, by omega, by omega, hback, hback, f3⟩
+
 /-- **The scientific-notation pipeline is a projection.** `x` a normal double, `k` its decimal
 exponent, `r = round(x, d − k)`. Then the pair `(N, K)` printed for `r` has `d + 1` digits,
 reading the printed decimal `N·10^(K−d)` gives `r` back, and rounding `r` at its own decimal
 exponent gives `r` again. -/
-theorem sci_core (m : Nat) (e : Int) (d : Nat) (h : wfE m e d) (hd : d ≤ 12) (m' : Nat) (e' : Int)
+theorem sci_core (m : Nat) (e : Int) (d : Nat) (h : wfB m e d) (hd : d ≤ 12) (m' : Nat) (e' : Int)
     (hr : nd53 (roundScaled m e ((d : Int) - floorLog10 m e)) ((d : Int) - floorLog10 m e) = some (m', e')) :
     RoundedOk m' e' ∧
     10 ^ d ≤ (sci m' e' d).1 ∧ (sci m' e' d).1 < 10 ^ (d + 1) ∧
@@ -772,10 +978,12 @@ theorem sci_core (m : Nat) (e : Int) (d : Nat) (h : wfE m e d) (hd : d ≤ 12) (
     nd53 (sci m' e' d).1 ((d : Int) - (sci m' e' d).2) = some (m', e') ∧
     nd53 (roundScaled m' e' ((d : Int) - floorLog10 m' e')) ((d : Int) - floorLog10 m' e') = some (m', e') ∧
     floorLog10 m e - 1 ≤ floorLog10 m' e' ∧ floorLog10 m' e' ≤ floorLog10 m e + 1 ∧
-    -- the digits printed are within half a unit (of their last place) of `x` itself
+    -- the digits printed are within half a unit (of their last place) of `x` itself — when that
+    -- last place is `10^-322` or more (`wfE`)
+    ((d : Int) - 322 ≤ floorLog10 m e →
     2 * absdiff ((sci m' e' d).1 * (2 ^ (-(-1074 : Int)).toNat * T ((sci m' e' d).2 - d))) (units (-1074) m e * 10 ^ 400) ≤
-      2 ^ (-(-1074 : Int)).toNat * T ((sci m' e' d).2 - d) := by
-  obtain ⟨hk1, hk2⟩ := kboundsE m e d h hd
+      2 ^ (-(-1074 : Int)).toNat * T ((sci m' e' d).2 - d)) := by
+  obtain ⟨hk1, hk2⟩ := kboundsB m e d h hd
   obtain ⟨hm0, hm53, he1, he2, _⟩ := h
   obtain ⟨s1, s2⟩ := floorLog10_spec m e hm0 hm53 (by omega) (by omega)
   generalize hk : floorLog10 m e = k at *
@@ -793,7 +1001,8 @@ theorem sci_core (m : Nat) (e : Int) (d : Nat) (h : wfE m e d) (hd : d ≤ 12) (
       exact Nat.mul_ne_zero hne (Nat.ne_of_gt (ten_pow_pos _))
   obtain ⟨hm', he1', he2', hnz⟩ := hnorm
   -- one unit of the last digit emitted is at least twenty subnormal steps
-  have hB20 : 20 * 10 ^ 400 ≤ 2 ^ (-(-1074 : Int)).toNat * T (k - d) := by
+  have hB20 : (d : Int) - 322 ≤ k → 20 * 10 ^ 400 ≤ 2 ^ (-(-1074 : Int)).toNat * T (k - d) := by
+    intro hreg
     have eU : (-(-1074 : Int)).toNat = 1074 := by decide
     have e1 : k - (d : Int) = -322 + ((k - (d : Int) + 322).toNat : Int) := by omega
     rw [eU, e1, T_add (-322) _ (by decide)]
@@ -806,6 +1015,18 @@ theorem sci_core (m : Nat) (e : Int) (d : Nat) (h : wfE m e d) (hd : d ≤ 12) (
       apply Nat.mul_le_mul_left
       exact Nat.le_mul_of_pos_right _ (ten_pow_pos _)
     exact Nat.le_trans a1 a2
+  -- in the extra decade `10^k` is far below the smallest normal double
+  have hsm : k ≤ -311 → 2 ^ (-(-1074 : Int)).toNat * T k < 2 ^ 52 * 10 ^ 400 := by
+    intro hle
+    have eU : (-(-1074 : Int)).toNat = 1074 := by decide
+    have e1 : (-311 : Int) = k + ((-311 - k).toNat : Int) := by omega
+    have t1 : T (-311) = 10 ^ 89 := by decide +kernel
+    have t2 := T_add k (-311 - k).toNat (by omega)
+    rw [← e1, t1] at t2
+    have a1 : T k ≤ 10 ^ 89 := by
+      rw [t2]; exact Nat.le_mul_of_pos_right _ (ten_pow_pos _)
+    rw [eU]
+    exact Nat.lt_of_le_of_lt (Nat.mul_le_mul_left _ a1) pow_factsB
   have hYsub : e' = -1074 → units (-1074) m' e' = m' := by
     intro h; subst h; simp [units]
   -- everything on the common scale
@@ -915,13 +1136,13 @@ theorem sci_core (m : Nat) (e : Int) (d : Nat) (h : wfE m e d) (hd : d ≤ 12) (
           unfold nd53
           rw [hGd, ← this, ← hc]; exact hr
         · unfold nd53 at hr ⊢
-          refine ⟨hr, by omega, by omega, ?_⟩
+          refine ⟨hr, by omega, by omega, fun _ => ?_⟩
           apply acc_shift _ n0 (U * T (k - d)) _ _ _ _ f3
           · rw [hTkd1, hc, Nat.pow_succ]; grind
           · rw [hTkd1]; exact Nat.mul_le_mul_left U (by omega)
       · have hc' : (n0 == 10 ^ (d + 1)) = false := by simpa using hc
         simp only [hc', Bool.false_eq_true, if_false]
-        refine ⟨f1, by rw [← hG10]; omega, by omega, by omega, hr, hr, by omega, by omega, f3⟩
+        refine ⟨f1, by rw [← hG10]; omega, by omega, by omega, hr, hr, by omega, by omega, fun _ => f3⟩
     · -- (b) r is the next power of ten or above
       have hyb' : 10 * G * (U * T (k - d)) ≤ Y * S := by omega
       obtain ⟨g1, g2, g3⟩ := pos_above (X * S) (Y * S) (U * T (k - d)) G hB h1 h2
@@ -952,7 +1173,7 @@ theorem sci_core (m : Nat) (e : Int) (d : Nat) (h : wfE m e d) (hd : d ≤ 12) (
         unfold nd53; rw [← hsh]
         have : G * 10 = n0 := by omega
         rw [this]; exact hr
-      refine ⟨Nat.le_refl _, by rw [← hG10]; omega, by omega, by omega, hr', hr', by omega, by omega, ?_⟩
+      refine ⟨Nat.le_refl _, by rw [← hG10]; omega, by omega, by omega, hr', hr', by omega, by omega, fun _ => ?_⟩
       apply acc_shift _ n0 (U * T (k - d)) _ _ _ _ f3
       · rw [hTkd1, g1]; grind
       · rw [hTkd1]; exact Nat.mul_le_mul_left U (by omega)
@@ -963,6 +1184,43 @@ theorem sci_core (m : Nat) (e : Int) (d : Nat) (h : wfE m e d) (hd : d ≤ 12) (
     have hn0pos : n0 ≠ 0 := by omega
     have hS0 : 0 < S := by rw [← hS]; exact ten_pow_pos _
     have hGle : G ≤ 10 ^ 12 := by rw [← hGd]; exact Nat.pow_le_pow_right (by decide) hd
+    by_cases hreg : (d : Int) - 322 ≤ k
+    rotate_left
+    · -- the extra decade: `r` is a subnormal double one decade below `x`, where the decimal grid is
+      -- finer than half a subnormal step (`sub_fine`)
+      have hkd : k - (d : Int) = -323 := by omega
+      have hGB : G * (U * T (k - d)) = U * T k := by rw [hTk]; grind
+      have hlow : U * T k ≤ 2 * (Y * S) := by
+        have a1 : G * (U * T (k - d)) ≤ n0 * (U * T (k - d)) := Nat.mul_le_mul_right _ f1
+        have a2 : U * T (k - d) ≤ G * (U * T (k - d)) := Nat.le_mul_of_pos_left _ hG
+        unfold absdiff at hoptx f3
+        omega
+      have hYlt : Y < 2 ^ 52 := by
+        have := hsm (by omega)
+        have a1 : Y * S < 2 ^ 52 * S := by omega
+        exact Nat.lt_of_mul_lt_mul_right a1
+      have hm0' : m' ≠ 0 := hYpos (by have := hY0 (j := k); omega)
+      have he' : e' = -1074 := by
+        rcases hnz hn0pos with h | h
+        · exfalso
+          have : m' ≤ Y := by
+            rw [← hYu]
+            show m' ≤ m' * 2 ^ (e' - (-1074)).toNat
+            exact Nat.le_mul_of_pos_right _ (two_pow_pos _)
+          omega
+        · exact h
+      have hY : Y = m' := hYsub he'
+      subst he'
+      have hk' : floorLog10 m' (-1074) = k - 1 := by
+        apply hexp (k - 1) (by omega) (by omega) hm0'
+        · have : U * T k = 10 * (U * T (k - 1)) := by rw [hTkm]; grind
+          omega
+        · have e1 : k - 1 + 1 = k := by omega
+          rw [e1]; omega
+      obtain ⟨q1, q2, q3, q4, q5, q6, _⟩ := sub_fine m' d hd hm0' (by omega) (by omega)
+      rw [hk'] at q6
+      refine ⟨⟨hm0', hm', he1', he2'⟩, by rw [← hGd]; exact q1, q2, q3, q4, q5, ?_, by omega, by omega, fun hc => absurd hc hreg⟩
+      rw [hk']; exact q6
     have h5 : 20 * G ≤ 2 * m' := by
       rcases hnz hn0pos with h | h
       · have := pow_facts.2.2.1
@@ -972,7 +1230,7 @@ theorem sci_core (m : Nat) (e : Int) (d : Nat) (h : wfE m e d) (hd : d ≤ 12) (
         have hY : Y = m' := hYsub h
         have a1 : G * (U * T (k - d)) ≤ n0 * (U * T (k - d)) := Nat.mul_le_mul_right _ f1
         have a2 : U * T (k - d) ≤ G * (U * T (k - d)) := Nat.le_mul_of_pos_left _ hG
-        have a3 : G * (20 * S) ≤ G * (U * T (k - d)) := Nat.mul_le_mul_left _ hB20
+        have a3 : G * (20 * S) ≤ G * (U * T (k - d)) := Nat.mul_le_mul_left _ (hB20 hreg)
         have a4 : G * (20 * S) = 2 * (10 * G * S) := by grind
         have a5 : 10 * G * S ≤ Y * S := by
           unfold absdiff at hoptx f3
@@ -1015,7 +1273,7 @@ theorem sci_core (m : Nat) (e : Int) (d : Nat) (h : wfE m e d) (hd : d ≤ 12) (
     unfold nd53 at hr' ⊢
     have : 10 * G = G * 10 := by omega
     rw [this, hsh]
-    refine ⟨hr', by omega, by omega, ?_⟩
+    refine ⟨hr', by omega, by omega, fun _ => ?_⟩
     rw [hGd, ← g1]; exact f3
 
 end Proofs.FloatE
